@@ -1,5 +1,5 @@
 (* C29 — graph exports are well-formed for any model and metamodel. *)
-From TxV Require Import Core.Base Model.ExportDefs Gen.SrcExport Model.Export Proofs.ExportProofs Proofs.ExportDocProofs.
+From TxV Require Import Core.Base Model.ExportDefs Gen.SrcExport Model.Export Model.ExportWalk Proofs.ExportProofs Proofs.ExportDocProofs Proofs.ExportWalkProofs.
 
 (* dot_escape is the replacement chain translated from textx/export.py.  For every string s, the text
    <quote> dot_escape s <quote> rest  is scanned by the DOT string scanner as exactly one quoted string
@@ -113,3 +113,38 @@ Proof.
   - rewrite <- (app_nil_r [32; 123; 10; 125; 10]%N). apply (GCatCons (TLit [32; 123; 10; 125; 10]%N) [] _ [] (GLit _) GCatNil).
 Qed.
 Print Assumptions C29_plantuml_nonvacuous.
+
+(* ---- a node for every model object.  ExportWalk.export transcribes _export of model_export_to_file (processed
+   set keyed by object identity = object number; compared text for text with the implementation on every
+   run).  For every object store and every root in it: the node statements it writes are those of exactly the
+   objects reachable from the root through attributes (plain object values and object members of lists, by
+   containment or reference), each exactly once - whatever the shape of the graph (sharing, cycles, self
+   references) and with the fuel the model uses. *)
+Theorem C29_nodes : forall st root, root < length st ->
+  NoDup (node_ids (export_stmts st root)) /\ forall k, In k (node_ids (export_stmts st root)) <-> reach st root k.
+Proof. exact export_nodes_exact. Qed.
+Print Assumptions C29_nodes.
+
+(* the exported text is the header, the texts of these statements in order, and the closing brace *)
+Theorem C29_doc_of_stmts : forall st header root,
+  export_doc st header root = header ++ flat_map snd (export_stmts st root) ++ [10; 125; 10]%N.
+Proof. reflexivity. Qed.
+Print Assumptions C29_doc_of_stmts.
+
+(* non-vacuity: a list with two objects and a string, a reference cycle 0 -> 1 -> 2 -> 0, a shared object (2)
+   and an object that is not reachable (3) *)
+Example C29_nodes_nonvacuous :
+  let a (name : list N) (l : bool) (v : aval) := mkAttr name true true l v in
+  let st := [mkObj [77]%N [a [107]%N true (VList [IObj 1; IPrim (PStr [120]%N); IObj 2])];
+             mkObj [65]%N [a [114]%N false (VObj 2)];
+             mkObj [66]%N [a [114]%N false (VObj 0); a [110; 97; 109; 101]%N false (VPrim (PStr [34]%N))];
+             mkObj [67]%N []] in
+  node_ids (export_stmts st 0) = [2; 1; 0]%nat /\ reach st 0 2 /\ ~ In 3%nat (node_ids (export_stmts st 0)).
+Proof.
+  cbn zeta. split; [vm_compute; reflexivity|]. split.
+  - apply (reach_step _ 0 1 2).
+    + apply (reach_step _ 0 0 1); [constructor|]. eexists. split; [reflexivity|]. split; [cbn; tauto | cbn; lia].
+    + eexists. split; [reflexivity|]. split; [cbn; tauto | cbn; lia].
+  - vm_compute. intros [H|[H|[H|[]]]]; discriminate.
+Qed.
+Print Assumptions C29_nodes_nonvacuous.
